@@ -21,6 +21,7 @@ GEN_GROUPS = ["IndexPy", "TrajPy", "Units"]
 RULE = ("trajectories: nsamples 1..6 x nspecies 1..4 x (grid w,h,d 1..3 | graph 1..6 nodes), data = distinct known numbers (about a third of the trajectories with negative entries), "
         "times non-decreasing dyadic (mostly strictly increasing, some with repeated times, some 'bursts': large offset + tiny strictly "
         "increasing steps with relative spacing below 1e-9), random time / quantity units; "
+        "species labels A..D or (40 %) sets differing only by case / prefixes of each other / index-like strings in another order; "
         "every (species, sample, cell) triple read through the four accessors with rotating argument forms "
         "(label / index / float index / object; index / tuple / list / coordinate object / numpy int); every species x sample state, "
         "whole states, merged trajectories; lookups: before first, after last, on every sample, exact midpoints, random in-between, "
@@ -43,6 +44,8 @@ TRUSTED = ["Python-side SI table of props/c06.py (time / quantity prefixes) for 
            "parse_unitvalue for the text form of a query (covered by C18)"]
 
 LABELS = ["A", "B", "C", "D"]
+# label sets that differ only by case, that are prefixes of each other, or that look like indices in another order
+LABEL_SETS = [["a", "b", "A", "B"], ["GFP", "gfp", "Gfp", "gFP"], ["A", "AB", "ABC", "B"], ["1", "0", "3", "2"], ["x", "X", "xx", "Xx"]]
 
 
 def sysj(s):
@@ -105,7 +108,7 @@ def gen_times(rng, n):
     return out, dup
 
 
-def species_arg(rng, s, system, form):
+def species_arg(rng, s, system, form, LABELS=LABELS):
     """(python argument, model json)"""
     if form == "label":
         return LABELS[s], {"label": LABELS[s]}
@@ -204,7 +207,8 @@ def build_case(ctx, rng, idx):
     ns = rng.randint(1, 4)
     N = rng.choice([1, 1, 2, 3, 4, 5, 6])
     usys = (rng.choice(SPACE), rng.choice(TIME), rng.choice(QTY))
-    system = make_system(rng, kind, shape, ns, usys)
+    labels = LABELS if rng.random() < 0.6 else rng.choice(LABEL_SETS)
+    system = make_system(rng, kind, shape, ns, usys, labels=labels)
     dsys = (rng.choice(SPACE), rng.choice(TIME), rng.choice(QTY))
     tsys = (rng.choice(SPACE), rng.choice(TIME), rng.choice(QTY))
     # distinct known numbers: position-coded + a random fractional part
@@ -227,25 +231,26 @@ def build_case(ctx, rng, idx):
     if refused == "traj":
         refused_space_assignment(ctx, traj.system, kind, shape)
     return dict(kind=kind, shape=shape, nc=nc, ns=ns, N=N, system=system, data=data, ts=ts, dup=dup, dsys=dsys, tsys=tsys,
-                traj=traj, source="constructed", refused=refused)
+                traj=traj, source="constructed", refused=refused, labels=labels)
 
 
 def case_json(c):
     """everything needed to rebuild the trajectory (replay)"""
     return {"kind": c["kind"], "shape": list(c["shape"]) if c["kind"] == "grid" else c["shape"], "ns": c["ns"],
             "data": c["data"], "ts": [rstr(t) for t in c["ts"]], "dsys": list(c["dsys"]), "tsys": list(c["tsys"]),
-            "source": c["source"], "refused_space_assignment": c.get("refused")}
+            "source": c["source"], "refused_space_assignment": c.get("refused"), "labels": c.get("labels", LABELS)}
 
 
 def model_op(c, queries):
     space = {"kind": "grid", "shape": {"w": c["shape"][0], "h": c["shape"][1], "d": c["shape"][2]}} if c["kind"] == "grid" \
         else {"kind": "graph", "size": c["shape"]}
     return {"op": "traj", "ns": c["ns"], "nc": c["nc"], "ts": [rstr(t) for t in c["ts"]], "tu": unitsj(c["tsys"], (0, 1, 0)),
-            "data": [rstr(v) for v in c["data"]], "du": unitsj(c["dsys"], (0, 0, 1)), "labels": LABELS[:c["ns"]],
+            "data": [rstr(v) for v in c["data"]], "du": unitsj(c["dsys"], (0, 0, 1)), "labels": c.get("labels", LABELS)[:c["ns"]],
             "space": space, "queries": queries}
 
 
 def gen_queries(ctx, rng, c, full):
+    labels = c.get("labels", LABELS)
     """list of (kind, python thunk description, model json, oracle expected) for one trajectory"""
     from strengths import UnitValue
     traj, system = c["traj"], c["system"]
@@ -258,7 +263,7 @@ def gen_queries(ctx, rng, c, full):
         triples = rng.sample(triples, 40)
     for n_, (s, k, cc) in enumerate(triples):
         sf, cf = sforms[(n_ + s) % 5], cforms[(n_ // 2 + cc) % 5]
-        sa, sj = species_arg(rng, s, system, sf)
+        sa, sj = species_arg(rng, s, system, sf, labels)
         ca, cj = cell_arg(rng, cc, c["kind"], c["shape"], cf)
         exp = data[k * ns * nc + s * nc + cc]
         qs.append(dict(q="point", args=(sa, k, ca), mj={"q": "point", "sp": sj, "k": k, "pos": cj}, exp=[exp], s=s, k=k, c=cc,
@@ -266,11 +271,11 @@ def gen_queries(ctx, rng, c, full):
     for k in range(N):
         qs.append(dict(q="state", args=(None, k), mj={"q": "state", "sp": None, "k": k}, exp=data[k * ns * nc:(k + 1) * ns * nc], k=k))
         for s in range(ns):
-            sa, sj = species_arg(rng, s, system, sforms[(s + k) % 3])
+            sa, sj = species_arg(rng, s, system, sforms[(s + k) % 3], labels)
             qs.append(dict(q="state", args=(sa, k), mj={"q": "state", "sp": sj, "k": k},
                            exp=[data[k * ns * nc + s * nc + cc] for cc in range(nc)], s=s, k=k))
     for s in range(ns):
-        sa, sj = species_arg(rng, s, system, sforms[s % 3])
+        sa, sj = species_arg(rng, s, system, sforms[s % 3], labels)
         qs.append(dict(q="traj", args=(sa, 0, [True, 1, np.True_, np.bool_(1)][(s + N) % 4]), mj={"q": "traj", "sp": sj, "pos": {"idx": 0}, "merge": True},
                        exp=[sum(frac(data[k * ns * nc + s * nc + cc]) for cc in range(nc)) for k in range(N)], s=s, merged=True))
         cells = range(nc) if (full or nc <= 6) else rng.sample(range(nc), 6)
@@ -507,9 +512,9 @@ def caller_reuses_system(ctx, rng, c, qs):
     if c["kind"] == "grid":
         w, h, d = c["shape"]
         shape2 = (h, w, d) if w != h else (w + 1, h, d)
-        other = make_system(rng, "grid", shape2, c["ns"], ("µm", "s", "molecule"), labels=LABELS[:c["ns"]][::-1] + LABELS[c["ns"]:])
+        other = make_system(rng, "grid", shape2, c["ns"], ("µm", "s", "molecule"), labels=c.get("labels", LABELS)[:c["ns"]][::-1] + c.get("labels", LABELS)[c["ns"]:])
     else:
-        other = make_system(rng, "graph", c["shape"] + 1, c["ns"], ("µm", "s", "molecule"), labels=LABELS[:c["ns"]][::-1] + LABELS[c["ns"]:])
+        other = make_system(rng, "graph", c["shape"] + 1, c["ns"], ("µm", "s", "molecule"), labels=c.get("labels", LABELS)[:c["ns"]][::-1] + c.get("labels", LABELS)[c["ns"]:])
     try:
         system.space = other.space
         system.network = other.network
@@ -591,6 +596,7 @@ def run(ctx):
         ctx.count("space_" + c["kind"])
         ctx.count("nsamples_%d" % c["N"])
         ctx.count("times_repeated" if c["dup"] else "times_strict")
+        ctx.count("labels_" + "/".join(c["labels"][:c["ns"]]))
         if any(v < 0 for v in c["data"]):
             ctx.count("data_with_negative_entries")
         if any(0 < (b - a) <= abs(b) / 10 ** 9 for a, b in zip(c["ts"], c["ts"][1:])):
@@ -632,7 +638,7 @@ def rebuild(cj):
     from strengths.units import Units, UnitsSystem, UnitsDimensions
     rng = random.Random(0)
     shape = tuple(cj["shape"]) if cj["kind"] == "grid" else cj["shape"]
-    system = make_system(rng, cj["kind"], shape, cj["ns"], ("µm", "s", "molecule"))
+    system = make_system(rng, cj["kind"], shape, cj["ns"], ("µm", "s", "molecule"), labels=cj.get("labels") or LABELS)
     du = Units(UnitsSystem(*cj["dsys"]), UnitsDimensions(0, 0, 1))
     tu = Units(UnitsSystem(*cj["tsys"]), UnitsDimensions(0, 1, 0))
     ts = [Fraction(t) for t in cj["ts"]]
@@ -653,6 +659,7 @@ def replay(ctx, rec):
     case = rec.get("case", rec)
     cj, q = case["traj"], case.get("query")
     traj, ts, system, shape = rebuild(cj)
+    LABELS = cj.get("labels") or globals()["LABELS"]
     ns = cj["ns"]
     nc = traj.ncells()
     N = len(ts)
